@@ -45,6 +45,14 @@ Theorem C11_dests_permitted : forall E l d id evs, In (LOut d id evs) (log (arun
 Proof. exact dests_permitted. Qed.
 Print Assumptions C11_dests_permitted.
 
+(* together with C17: once a FlushAll / Close has succeeded, every event accepted so far has left the gate in exactly one
+   composite and nothing is withheld any more *)
+Theorem C11_handed_over_exactly_once_after_flush : forall E l e,
+  NoDup (adds l) -> In e (accepted (arun E l)) -> snd (astep E (arun E l) AFlushAll) = RNil ->
+  let s' := arun E (l ++ [AFlushAll]) in groups s' = [] /\ cnt e (emitted (log s')) = 1%nat.
+Proof. exact handed_over_exactly_once_after_flush. Qed.
+Print Assumptions C11_handed_over_exactly_once_after_flush.
+
 (* an accepted event without the flush flag is withheld: nothing is returned and it sits last in its id's group *)
 Theorem C11_accepted_withheld : forall E s id n rd tadd,
   snd (step E s (Proc id false n rd tadd)) <> RErr ->
